@@ -654,6 +654,7 @@ func (e *Engine) execSimple(st *State, fr *Frame, ins ssa.Instruction) {
 			c.arr = true
 			c.base = e.smt.Fresh("arr", SU)
 			st.assume(mkNot(mkEq(c.base, "nil")))
+			e.allocatedNow(st, c.base)
 			_ = at
 			e.zeroElems(st, c.base, at.Elem())
 		} else {
@@ -736,6 +737,7 @@ func (e *Engine) execSimple(st *State, fr *Frame, ins ssa.Instruction) {
 		e.safety(st, "bounds", "make:"+e.describe(x.Len), mkAnd(mkCmp(">=", ln.term(), "0"), mkCmp("<=", ln.term(), cp.term())), x.Pos())
 		base := e.smt.Fresh("mk", SU)
 		st.assume(mkNot(mkEq(base, "nil")))
+		e.allocatedNow(st, base)
 		elem := x.Type().Underlying().(*types.Slice).Elem()
 		e.zeroElems(st, base, elem)
 		fr.regs[x] = Val{T: x.Type(), L: []string{base, "0", ln.term(), cp.term()}}
@@ -894,6 +896,8 @@ func (e *Engine) assumeLoadInv(st *State, v Val) {
 	ls := e.flatten(v.T)
 	for i, l := range ls {
 		switch l.Role {
+		case "base":
+			e.existedBefore(st, v.L[i])
 		case "off", "len":
 			st.assume(mkCmp(">=", v.L[i], "0"))
 		case "cap":
